@@ -33,12 +33,22 @@ const maxAnswer = 8
 
 var stopProf = func() {}
 
-var qtypes = []uint16{tA, tAAAA, tNS, tSOA, tCNAME, tMX, tTXT, tSRV, tPTR, tSVCB, tHTTPS, tSPF, tPRIV, tANY}
+// qtypes are asked of every file; nearQtypes (the numeric neighbours of every
+// qtype that handler.go, db/answer*.go or db/utils.go treat specially: A 1, NS 2,
+// CNAME 5, SOA 6, MX 15, AAAA 28, DS 43, HTTPS 65, ANY 255; and both ends of the
+// range) only of the files that are asked the full name universe.
+var qtypes = []uint16{tA, tAAAA, tNS, tSOA, tCNAME, tMX, tTXT, tSRV, tPTR, tSVCB, tHTTPS, tSPF, tPRIV, tANY, tDS}
+var nearQtypes = []uint16{0, 3, 4, 14, 27, 29, 42, 44, 66, 254, 256, 65535}
+var qtypesAll = append(append([]uint16{}, qtypes...), nearQtypes...)
 
 type client struct {
 	ip  string
 	nip net.IP
 }
+
+// nearClient is the client that asks the nearQtypes: the located one, whose
+// lookups read both its location's and the untagged records.
+const nearClient = 0
 
 var clients = []client{{"10.1.1.1", net.ParseIP("10.1.1.1")}, {"192.168.1.1", net.ParseIP("192.168.1.1")}, {"8.8.8.8", net.ParseIP("8.8.8.8")}}
 
@@ -70,7 +80,22 @@ func query(name string, qtype uint16) *dns.Msg {
 type file struct {
 	skel  int
 	items []int // indices into alphabet, ascending
-	mask  uint64
+	mask  mask
+}
+
+// mask is the set of items of a file (bits 126, 127: the skeleton).
+type mask [2]uint64
+
+func (m *mask) set(i int)           { m[i>>6] |= 1 << uint(i&63) }
+func (m mask) subsetOf(o mask) bool { return m[0]&o[0] == m[0] && m[1]&o[1] == m[1] }
+
+func (f *file) solo() bool {
+	for _, i := range f.items {
+		if alphabet[i].Solo {
+			return true
+		}
+	}
+	return false
 }
 
 func (f *file) ids() string {
@@ -133,20 +158,20 @@ type caseKey struct {
 
 type failStore struct {
 	mu sync.Mutex
-	m  map[caseKey][]uint64
+	m  map[caseKey][]mask
 }
 
 // minimal records the failing case and reports whether no proper sub-file
 // failed the same way (all smaller files have been processed before).
-func (s *failStore) minimal(k caseKey, mask uint64) bool {
+func (s *failStore) minimal(k caseKey, fm mask) bool {
 	s.mu.Lock()
 	defer s.mu.Unlock()
 	for _, m := range s.m[k] {
-		if m&mask == m && m != mask {
+		if m.subsetOf(fm) && m != fm {
 			return false
 		}
 	}
-	s.m[k] = append(s.m[k], mask)
+	s.m[k] = append(s.m[k], fm)
 	return true
 }
 
@@ -159,8 +184,9 @@ type sample struct {
 	Observed string `json:"observed"`
 }
 
-// probes are asked of every file: the byte-order neighbours of the closest-key walk.
-var probes = []string{"a.example.com.", "a-.example.com.", "a0.example.com.", "aa.example.com.", "ab.a.example.com.", "b.example.com."}
+// probes are asked of every file: the byte-order neighbours of the closest-key
+// walk and the names at the size limits (extraQueryNames).
+var probes = append([]string{"a.example.com.", "a-.example.com.", "a0.example.com.", "aa.example.com.", "ab.a.example.com.", "b.example.com."}, extraQueryNames...)
 
 // caseVariants: an existing owner and a name under a wildcard, in mixed case.
 var caseVariants = []string{"WWW.Example.COM.", "NX.W.EXAMPLE.COM."}
@@ -234,21 +260,45 @@ func main() {
 	for i := range alphabet {
 		all = append(all, &alphabet[i])
 	}
-	if len(alphabet) > 60 {
-		vlib.Infra("alphabet too large for the 64-bit file mask")
+	if len(alphabet) > 120 {
+		vlib.Infra("alphabet too large for the 128-bit file mask")
+	}
+	for _, n := range extraQueryNames {
+		if !validName(n) || wireLen(n) > 255 {
+			vlib.Infra("extra query name %q is not a valid name", n)
+		}
 	}
 	// The closed name universe of the whole alphabet; files of more than
 	// fullUniverseItems items are asked the names closed over their own records
 	// plus fixed probes (byte-order neighbours, case variants), which are a subset of it.
-	names := append(universe(all), caseVariants...)
+	names := universe(all)
 	nameIdx := map[string]int{}
 	for i, n := range names {
 		nameIdx[n] = i
+	}
+	for _, n := range append(append([]string{}, caseVariants...), extraQueryNames...) {
+		if _, ok := nameIdx[n]; !ok {
+			nameIdx[n] = len(names)
+			names = append(names, n)
+		}
 	}
 	allNames := make([]int, len(names))
 	for i := range names {
 		allNames[i] = i
 	}
+	// baseNames: the universe closed over the skeletons and the combinable (non-solo) items.
+	var nonSolo []*Item
+	for _, it := range all {
+		if !it.Solo {
+			nonSolo = append(nonSolo, it)
+		}
+	}
+	var baseNames []int
+	for _, n := range append(append(universe(nonSolo), caseVariants...), extraQueryNames...) {
+		baseNames = append(baseNames, nameIdx[n])
+	}
+	sort.Ints(baseNames)
+	baseNames = uniq(baseNames)
 	fullUniverseItems := r.Pick(1, 2)
 	if s := os.Getenv("C01_ONLY_ITEMS"); s != "" { // development knob: restrict the alphabet to the listed item ids
 		keep := map[string]bool{}
@@ -277,19 +327,23 @@ func main() {
 		}
 		for k := 0; k <= lim; k++ {
 			subsets(len(alphabet), k, func(s []int) {
-				f := &file{skel: skel, items: s, mask: 1 << uint(62+skel)}
+				f := &file{skel: skel, items: s}
+				f.mask.set(126 + skel)
 				for _, i := range s {
-					f.mask |= 1 << uint(i)
+					f.mask.set(i)
+				}
+				if len(s) > 1 && f.solo() { // value-domain items do not combine
+					return
 				}
 				classes[k] = append(classes[k], f)
 			})
 		}
 	}
 
-	fails := &failStore{m: map[caseKey][]uint64{}}
+	fails := &failStore{m: map[caseKey][]mask{}}
 	var nFiles, nDBs, nQueries, nModel, nNontrivial, nFailing, nMinimal int64
 	var classCount [5]int64
-	var wildCount, locatedCount int64
+	var wildCount, locatedCount, nSkipped, nSoloFiles int64
 
 	for k := 0; k <= maxItems; k++ {
 		fl := classes[k]
@@ -299,8 +353,13 @@ func main() {
 			w := f.world()
 			text := f.text()
 			ids := f.ids()
-			asked := allNames
-			if len(f.items) > fullUniverseItems {
+			asked := baseNames
+			qts := qtypesAll
+			if len(f.items) == 0 {
+				asked = allNames // the sub-file of every file, value-domain files included
+			}
+			if len(f.items) > fullUniverseItems || f.solo() {
+				qts = qtypes
 				its := []*Item{&skeletons[f.skel]}
 				for _, i := range f.items {
 					its = append(its, &alphabet[i])
@@ -316,15 +375,22 @@ func main() {
 				sort.Ints(asked)
 				asked = uniq(asked)
 			}
-			exp := make([]*Expect, len(asked)*len(qtypes)*len(clients))
+			exp := make([]*Expect, len(asked)*len(qts)*len(clients))
 			var cc [5]int64
-			var wc, lc, nontriv int64
+			var wc, lc, nontriv, sk int64
 			for ai, ni := range asked {
 				name := names[ni]
-				for ti, qt := range qtypes {
+				for ti, qt := range qts {
 					for ci := range clients {
+						if ti >= len(qtypes) && ci != nearClient {
+							continue
+						}
 						e := w.Resolve(name, qt, clients[ci].nip)
-						exp[(ai*len(qtypes)+ti)*len(clients)+ci] = e
+						exp[(ai*len(qts)+ti)*len(clients)+ci] = e
+						if e.Skip {
+							sk++
+							continue
+						}
 						cc[e.Class]++
 						if e.Class != exRefused && e.Class != exNXDomain {
 							nontriv++
@@ -339,7 +405,12 @@ func main() {
 				}
 			}
 			atomic.AddInt64(&nFiles, 1)
-			atomic.AddInt64(&nModel, int64(len(asked)*len(qtypes)*len(clients)))
+			if f.solo() {
+				atomic.AddInt64(&nSoloFiles, 1)
+			}
+			nAsked := int64(len(asked) * (len(qtypes)*len(clients) + len(qts) - len(qtypes)))
+			atomic.AddInt64(&nModel, nAsked)
+			atomic.AddInt64(&nSkipped, sk)
 			atomic.AddInt64(&nNontrivial, nontriv)
 			atomic.AddInt64(&wildCount, wc)
 			atomic.AddInt64(&locatedCount, lc)
@@ -348,6 +419,9 @@ func main() {
 			}
 			buf := make([]byte, 4096)
 			pick := (fi*7919 + k*131) % len(exp) // the sampled (query, client) of this file
+			for exp[pick] == nil {
+				pick = (pick + 1) % len(exp)
+			}
 			for _, b := range dnsfix.Backends {
 				if !runsOn(f, b) {
 					continue
@@ -371,10 +445,13 @@ func main() {
 				var served, failing, minimal int64
 				for ai, ni := range asked {
 					name := names[ni]
-					for ti, qt := range qtypes {
+					for ti, qt := range qts {
 						for ci := range clients {
-							idx := (ai*len(qtypes)+ti)*len(clients) + ci
+							idx := (ai*len(qts)+ti)*len(clients) + ci
 							e := exp[idx]
+							if e == nil {
+								continue
+							}
 							res := h.Serve(query(name, qt), clients[ci].ip, false, maxAnswer)
 							served++
 							v := compare(w, name, e, res, buf)
@@ -386,7 +463,7 @@ func main() {
 							}
 							failing++
 							kind := strings.ReplaceAll(v.kind, "/", "-")
-							if !fails.minimal(caseKey{b: uint8(b), c: uint8(ci), q: uint32(ni*len(qtypes) + ti), kind: kind}, f.mask) {
+							if !fails.minimal(caseKey{b: uint8(b), c: uint8(ci), q: uint32(ni*len(qtypesAll) + ti), kind: kind}, f.mask) {
 								continue
 							}
 							minimal++
@@ -451,11 +528,22 @@ func main() {
 	r.Set("expected_for_located_client", locatedCount)
 	r.Set("failing_comparisons", nFailing)
 	r.Set("minimal_failing_cases", nMinimal)
-	r.Set("rule", fmt.Sprintf("data file = skeleton (apex example.com SOA+NS as Z+& lines, or as one '.' line for files of <=%d items; resolver maps Mexample.com/M*.example.com -> m1, %%aa 10/8, %%bb 192.168/16) + every subset of <=%d of %d alphabet items (each item = text lines + hand-written structured records); each file compiled by the real compilers for cdb (all files), rdb-v1 (files of <=%d items) and rdb-v2 (files of <=%d items, plus the files of %d items none of which is one of the %d auxiliary items, i.e. items whose key shape (owner, wildcard flag, location) repeats another item's and that play no part in additional-section processing), opened by the real handler and asked every name of the closed universe (%d names: owners, targets, ancestors, a fresh sibling nx under every node, under-wildcard names, two case variants; files of more than %d items are asked the sub-universe closed over their own records plus 6 byte-order-neighbour probes and the case variants, so every sub-file of a reported case was asked the same query) x %d qtypes x %d clients with maxAnswer=%d; each response compared with the reference interpreter. states = databases compiled and opened; transitions = evaluations = queries served and compared; distinct_nontrivial = (file, query, client) triples whose prescribed outcome is a referral, a NODATA or a positive answer (i.e. neither REFUSED nor NXDOMAIN); a failing case is reported only if no sub-file fails the same (backend, query, client, kind)", maxItemsSkelB, maxItems, len(alphabet), anySize[dnsfix.RDBv1], anySize[dnsfix.RDBv2], coreSize[dnsfix.RDBv2], nAux, len(names), fullUniverseItems, len(qtypes), len(clients), maxAnswer))
+	nSolo := 0
+	for _, it := range alphabet {
+		if it.Solo {
+			nSolo++
+		}
+	}
+	r.Set("value_domain_items", nSolo)
+	r.Set("value_domain_files", nSoloFiles)
+	r.Set("names_asked_of_combinable_files", len(baseNames))
+	r.Set("near_qtypes", len(nearQtypes))
+	r.Set("not_compared_ds_at_delegation_point", nSkipped)
+	r.Set("rule", fmt.Sprintf("data file = skeleton (apex example.com SOA+NS as Z+& lines, or as one '.' line for files of <=%d items; resolver maps Mexample.com/M*.example.com -> m1, %%aa 10/8, %%bb 192.168/16) + every subset of <=%d of the %d combinable alphabet items, or + exactly one of the %d value-domain items (each item = text lines + hand-written structured records; combinable items include zone apexes and cuts whose SOA / NS / other records are split between a location and the untagged set; value-domain items put one value below, at and above every size boundary of the record encoders into one field: TXT of 1,126,127,128,253,254,255,256,381 bytes, labels of 63 bytes and names of 254/255 wire bytes as owner, wildcard parent, rdata name and expanded MX host, owners and wildcards 11-15 labels deep, MX preference 0/256/65535, SRV numbers 0 and 65533..65535, TTL 0/1/2^31-1, SOA numbers 0 and 2^32-5..2^32-1, SVCB alpn ids of 1/254/255 bytes, port 0/65535, priority 0/65535, generic rdata of 1 and 300 bytes); each file compiled by the real compilers for cdb (all files), rdb-v1 (files of <=%d items) and rdb-v2 (files of <=%d items, plus the files of %d items none of which is one of the %d auxiliary items, i.e. items whose key shape (owner, wildcard flag, location) repeats another item's and that play no part in additional-section processing), opened by the real handler and asked names x qtypes x clients with maxAnswer=%d: the two skeleton-only files are asked the closed universe of the whole alphabet (%d names: owners, targets, ancestors, a fresh sibling nx under every node, under-wildcard names, two case variants, and %d names at the size limits: 15 labels below a wildcard, 123 and 121 one-byte labels = 255 wire bytes below the apex and below a delegation, a 63-byte label below a wildcard); files of <=%d combinable items the universe closed over the combinable items (%d names); larger files and value-domain files the sub-universe closed over their own records plus 6 byte-order-neighbour probes, the size-limit names and the case variants, so every sub-file of a reported case was asked the same query. Qtypes: %d (all declared types, ANY, DS) x %d clients (located aa, located bb, unlocated) everywhere, plus %d neighbour qtypes (0,3,4,14,27,29,42,44,66,254,256,65535: adjacent to every qtype the server treats specially) from the aa client for the files asked a full universe. Each response compared with the reference interpreter. states = databases compiled and opened; transitions = evaluations = queries served and compared; distinct_nontrivial = (file, query, client) triples whose prescribed outcome is a referral, a NODATA or a positive answer (i.e. neither REFUSED nor NXDOMAIN); a failing case is reported only if no sub-file fails the same (backend, query, client, kind)", maxItemsSkelB, maxItems, len(alphabet)-nSolo, nSolo, anySize[dnsfix.RDBv1], anySize[dnsfix.RDBv2], coreSize[dnsfix.RDBv2], nAux, maxAnswer, len(names), len(extraQueryNames), fullUniverseItems, len(baseNames), len(qtypes), len(clients), len(nearQtypes)))
 	r.Assume = []string{
 		"the weighted-selection random source is replaced by a deterministic one that never draws the edge value 0 (C11 covers the draws); all address records have weight 1 and maxAnswer >= candidates, so the answer set is independent of the draws",
-		"not compared (statement silent): additional section of positive answers beyond soundness, RR class, order within a section, DS at a delegation, ANY beyond answer being a sub-multiset of the visible records of the name, TXT chunk boundaries",
-		"names outside the universe, more interacting items than the bound, query class other than IN, EDNS/ECS queries are not covered",
+		"not compared (statement silent): additional section of positive answers beyond soundness, RR class, order within a section, qtype DS exactly at a delegation point (answered from the parent side by design; DS below a delegation and DS anywhere else are compared like every other qtype), ANY beyond answer being a sub-multiset of the visible records of the name, how a TXT text is cut into character-strings (only: the concatenation is the declared text and no character-string is empty)",
+		"names outside the universe, more interacting items than the bound, value-domain items combined with other items, query class other than IN, EDNS/ECS queries are not covered",
 	}
 	clean()
 	stopProf()
